@@ -368,7 +368,7 @@ func (ex *Exec) builtinCall(v *ssa.Call, c *ssa.CallCommon, b *ssa.Builtin, pos 
 		}
 		return Val{T: t}
 	case "close":
-		ex.chanClose(args[0].T)
+		ex.chanClose(args[0].T, pos)
 		return Val{}
 	case "print", "println":
 		return Val{}
